@@ -109,6 +109,20 @@ def evaluate(case):
                         fails.append(f"{X}_using_{Y}: output '{names[k]}' is not the conversion of g_using_F's "
                                      f"(max diff {np.abs(a - b).max() if a.shape == b.shape else 'shape'!s:.12})")
                         break
+    # a masked bin (NaN uncertainty) is masked for every variant alike: no variant repairs what the others hand on
+    if df is not None and len(df) >= 3 and not fails:
+        dfn = df.copy()
+        dfn[len(dfn) // 2] = np.nan
+        with np.errstate(all="ignore"):
+            refn = np.asarray(ff.g_using_F(r, g, q, f, cutoff, dg, dfn, **kw)[7], dtype=float)
+            for Y in QSP[1:]:
+                fi, dfi = getattr(cv, f"F_to_{Y}")(q, f, dfn, **kw)
+                o = getattr(ff, f"g_using_{Y}")(r, g, q, fi, cutoff, dg, dfi, **kw)
+                dc = np.asarray(getattr(cv, f"{Y}_to_F")(o[2], o[3], o[7], **kw)[1], dtype=float)
+                if not np.array_equal(np.isnan(dc), np.isnan(refn)):
+                    fails.append(f"g_using_{Y}: with a NaN uncertainty in one Q bin the corrected function's uncertainty is NaN in {int(np.isnan(dc).sum())} bins, "
+                                 f"g_using_F's in {int(np.isnan(refn).sum())}")
+                    break
     return fails
 
 
